@@ -8,6 +8,7 @@
 #include "ref_codec.h"
 #include "oracle_crc.h"
 #include "st_codecs.h"
+#include <memory>
 
 using vf::Ctx;
 using vf::strf;
@@ -242,6 +243,34 @@ static void build(vf::Plan &plan, const vf::Opts &o)
                    unsigned seed = (unsigned)(i % nseed) * 83u + 1u, len = (unsigned)(i / nseed) + maxlen + 1;
                    return desc_bytes(sweep_data((uint64_t)len * 256 + seed % 256));
                });
+    // lengths that cannot be materialised: the encoder sizes its result with one arithmetic helper, which is evaluated
+    // directly for every small length and for lengths around every power of two and 3*2^k up to the largest whose encoded
+    // length still fits size_t
+    {
+        auto lens = std::make_shared<std::vector<uint64_t>>();
+        for (uint64_t n = 0; n <= 70000; ++n) lens->push_back(n);
+        for (int k = 16; k <= 61; ++k)
+            for (int d = -4; d <= 4; ++d) {
+                lens->push_back((1ull << k) + (uint64_t)(int64_t)d);
+                lens->push_back(3 * (1ull << k) / 2 + (uint64_t)(int64_t)d);
+                lens->push_back(3 * (1ull << k) + (uint64_t)(int64_t)d);
+            }
+        plan.stage(strf("base64 length arithmetic: b64_encode_size(n) for %zu lengths up to 3*2^61", lens->size()), lens->size(),
+                   [lens](uint64_t i, Ctx &c) {
+                       uint64_t n = (*lens)[i];
+                       unsigned __int128 want = (((unsigned __int128)n + 2) / 3) * 4;
+                       if (want > (unsigned __int128)~uint64_t(0)) return;  // not representable: outside the statement
+                       size_t got = _ST_PRIVATE::b64_encode_size((size_t)n);
+                       VF_COUNT("ops");
+                       VF_COUNT("validated");
+                       if ((unsigned __int128)got != want)
+                           c.fail(strf("base64_encode:length-arithmetic:%s", n < (1ull << 32) ? "n<2^32" : "n>=2^32"),
+                                  strf("encoded length computed for %llu input bytes is %zu, 4*ceil(n/3) is %llu", (unsigned long long)n, got,
+                                       (unsigned long long)want));
+                       if (n > 70000) c.nontrivial();
+                   },
+                   [lens](uint64_t i) { return strf("n=%llu", (unsigned long long)(*lens)[i]); });
+    }
     plan.stage("hex:all-2-byte-arrays", 65536,
                [](uint64_t i, Ctx &c) {
                    std::string d = mk((unsigned)i, 2, false);
